@@ -520,7 +520,7 @@ def wide_library(rows=None, class_=True, defaults=False, **opts):
 
 STR_ROWS = {"cstr_in", "tdstr_in", "str_cref", "str_ref_inout", "str_ref_out"}
 STR_RESULTS = {"cstr", "str_cref", "char1", "char3"}
-VEC_BUF_ROWS = {"vec_in", "vec_inout", "vec_out_alloc", "vec_inout_alloc"}
+VEC_BUF_ROWS = {"vec_in", "vec_inout", "vec_out_alloc", "vec_inout_alloc", "cstrv_in"}
 CDESC_RESULTS = {"iptr3", "iptr23"}
 
 
@@ -536,9 +536,6 @@ def cfi_conflict(f):
 def known_cause(lib, f):
     """The recorded finding (KNOWN_FINDINGS.txt, property C05) a function of a LibGen description runs into, or None.
     Findings with many faces are recognised by the shape of the function, not by a compiler's wording."""
-    if lib["opts"].get("F_CFI") and "cstrv_in" in f["params"]:
-        # F_CFI: a 'char **' argument makes arg_to_CFI clone the function although no CFI statements exist for it
-        return "cfi-char-array"
     if f.get("tmpl") and f.get("gen"):
         # the fortran_generic entries of a function template keep the template's parameter list: the instantiations
         # are wrapped with 'T' parameters again
